@@ -904,6 +904,20 @@ ES_DOMAINS_X = ES_DOMAINS + [(2 ** 20, 2 ** 20 + 1), (-3 * 2 ** 10, -3 * 2 ** 10
                              (0, Fraction(1, 2 ** 30)), (Fraction(1, 2 ** 30), Fraction(1, 2 ** 30) + Fraction(1, 2 ** 40)), (Fraction(-1, 2 ** 20), Fraction(1, 2 ** 20))]
 
 
+# constructor options of the extend-split scheme: area grid families that integrate multilinear functions exactly (is_high_order_grid() is True
+# for the last two: automatic_extend_split then uses the parent estimates / extend_error_correction path)
+ES_GRIDS = ['trap', 'trap', 'cc', 'lagrange2']
+
+
+def make_area_grid(kind, A, B):
+    from sparseSpACE import Grid as G
+    if kind == 'cc':
+        return G.ClenshawCurtisGrid(a=A, b=B, boundary=True)
+    if kind == 'lagrange2':
+        return G.LagrangeGrid(a=A, b=B, boundary=True, p=2)
+    return G.TrapezoidalGrid(a=A, b=B, boundary=True)
+
+
 def _axes_es(rng, c, nsteps):
     c['amp'] = rng.choice(AMPS)
     c['argmode'] = rng.choice(ARGMODES)
@@ -928,10 +942,20 @@ def gen_case_es(rng, tier, small=False):
     dom = [rng.choice(ES_DOMAINS_X) for _ in range(dim)]
     if len(set(dom)) == 1 and dim > 1:     # not cubic
         dom[0] = rng.choice([d for d in ES_DOMAINS if d != dom[1]])
-    c = dict(strategy='es', dim=dim, version=rng.choice([0, 1, 2]), nrbe=rng.choice([0, 1, 2, 3]), auto=rng.random() < 0.4,
-             single=rng.random() < 0.4, lmin=lmin, lmax=lmin + span, steps=steps,
+    grid = rng.choice(ES_GRIDS)
+    auto = rng.random() < (0.4 if grid == 'trap' else 0.6)
+    single = rng.random() < 0.4
+    if grid != 'trap' and single and not auto:
+        # excluded: split_single_dim without automatic_extend_split on a high-order area grid raises AssertionError in
+        # SpatiallyAdaptiveExtendScheme.get_sum_sibling_value on the unchanged code (its own error estimate, before any result is reported)
+        auto = True
+    c = dict(strategy='es', dim=dim, version=rng.choice([0, 1, 2]), nrbe=rng.choice([0, 1, 2, 3]), auto=auto, grid=grid,
+             single=single, lmin=lmin, lmax=lmin + span, steps=steps,
              a=[str(Fraction(d[0])) for d in dom], b=[str(Fraction(d[1])) for d in dom], fn=rng.randrange(3), seed=rng.randrange(1 << 30))
-    return _axes_es(rng, c, steps)
+    c = _axes_es(rng, c, steps)
+    if grid != 'trap' and c['argmode'] == 'f32':
+        c['argmode'] = 'same'       # Clenshaw-Curtis / Lagrange nodes are not float32 numbers: float32 bounds give float32 accuracy (1e-8), not a C04 loss
+    return c
 
 
 def gen_case_cell(rng, tier, small=False):
@@ -1021,7 +1045,7 @@ def steps_es(case):
     ampf = 2.0 ** case.get('amp', 0)
     tr = dict(step=0)
     f = _make_ml_function(case)
-    grid = TrapezoidalGrid(a=A, b=B, boundary=True)
+    grid = make_area_grid(case.get('grid', 'trap') if case['strategy'] == 'es' else 'trap', A, B)
     op = Integration(f=f, grid=grid, dim=dim, reference_solution=None)
     if case['strategy'] == 'es':
         from sparseSpACE.spatiallyAdaptiveExtendSplit import SpatiallyAdaptiveExtendScheme
@@ -1060,6 +1084,9 @@ def steps_es(case):
                 bx = c07._box(o)
                 areas.append([list(bx[0]), list(bx[1]), gs])
             st['areas'] = areas
+            # bookkeeping identity: the reported result is the sum of the values stored on the current areas (catches double counting)
+            vals = [np.asarray(o.value, dtype=float).ravel() for o in objs if getattr(o, 'value', None) is not None]
+            st['sum_area_values'] = normalised(np.sum(vals, axis=0)) if len(vals) == len(objs) and vals else None
         else:
             st['ncells'] = len(objs)
             st['nactive'] = sum(1 for o in objs if o.active)
@@ -1149,6 +1176,9 @@ ES_CORPUS = [
     dict(strategy='es', dim=2, version=0, nrbe=2, auto=True, single=False, lmin=1, lmax=3, steps=4, a=['1/2', '0'], b=['2', '1'], fn=0, seed=14),
     dict(strategy='es', dim=2, version=2, nrbe=0, auto=False, single=False, lmin=2, lmax=3, steps=3, a=['-1/4', '1'], b=['3/4', '4'], fn=1, seed=3),
     dict(strategy='es', dim=2, version=1, nrbe=0, auto=False, single=False, lmin=2, lmax=4, steps=3, a=['0', '2'], b=['2', '9/4'], fn=0, seed=5),
+    dict(strategy='es', dim=2, version=0, nrbe=1, auto=True, single=False, grid='cc', lmin=1, lmax=2, steps=3, a=['0', '-1'], b=['2', '1'], fn=0, seed=2),
+    dict(strategy='es', dim=2, version=1, nrbe=0, auto=True, single=True, grid='lagrange2', lmin=1, lmax=2, steps=3, a=['1/2', '0'], b=['2', '1'], fn=1, seed=2),
+    dict(strategy='es', dim=3, version=2, nrbe=1, auto=True, single=False, grid='cc', lmin=1, lmax=2, steps=3, a=['0', '-1', '1/2'], b=['2', '1', '3/2'], fn=0, seed=2),
     dict(strategy='cell', dim=2, lmin=2, lmax=2, steps=4, a=['0', '-1'], b=['2', '1'], fn=0, seed=21),
     dict(strategy='cell', dim=3, lmin=1, lmax=1, steps=3, a=['0', '1/2', '-2'], b=['1', '3/2', '1'], fn=1, seed=22),
 ]
@@ -1188,6 +1218,8 @@ def check_es(chk, cases, verbose=False):
         if strat == 'es':
             chk.count('es:version=%d' % c['version']); chk.count('es:auto=%s' % c['auto']); chk.count('es:single=%s' % c['single'])
         sig0 = dict(strategy=strat, version=c.get('version'), auto=c.get('auto'), single=c.get('single'))
+        if strat == 'es':
+            chk.count('es:axis-options:grid=%s,auto=%s' % (c.get('grid', 'trap'), c.get('auto')))
         if st != 'ok':
             chk.violation('corr:C04/%s-history' % strat, 'impl-exception', dict(sig0, exc=(r[0] if r else st)), c, dict(impl=str(r)), failing_input=True)
             rc = 1
@@ -1226,6 +1258,17 @@ def check_es(chk, cases, verbose=False):
                               dict(step=k, exponent=e, impl=iv, exact=str(ex), all_wrong=str([(x[0], x[1]) for x in bad])[:300]), failing_input=True)
                 done = True
                 rc = 1
+            if strat == 'es' and s_.get('sum_area_values') is not None and not done:
+                sv_ = s_['sum_area_values']
+                full = s_['integral']
+                badn = [n for n in range(len(full)) if not close(sv_[n], full[n], (max(abs(full[0]), abs(sv_[0])) * 100 if n == 0 else scale[n - 1]))]
+                chk.count('es:sum-of-area-values identity evaluations')
+                if badn:
+                    n = badn[0]
+                    chk.violation('oracle:C04/es-sum-of-area-values', 'es-result-not-sum-of-area-values', dict(sig0, grid=c.get('grid', 'trap')), dict(c, steps=k),
+                                  dict(step=k, component=n, reported=full[n], sum_of_area_values=sv_[n]), failing_input=True)
+                    done = True
+                    rc = 1
             if strat == 'es':
                 m = ck.get((i, k))
                 if m is None or sx.is_err(m) or isinstance(m, tuple):
